@@ -1,227 +1,688 @@
 (* C15, SQL part: order preservation, equal-values-equal-keys, decode/encode round trips and
    composite keys for the model of SQL/KeyEnc.v; refutation witnesses for the value ranges on
    which the code as it is violates the property. *)
-From V Require Import SQL.KeyEnc Store.CodecTotal.
+From V Require Import SQL.KeyEnc Store.CodecTotal SQL.KeyEncLemmas.
 From Coq Require Import ZifyN ZifyNat ZifyBool.
 Ltac Zify.zify_post_hook ::= Z.to_euclidean_division_equations.
 
 (* ------------------------------------------------------------------ *)
-(* sweeping the 256 byte values                                         *)
-Definition all_bytes : list N := map N.of_nat (seq 0 256).
-Lemma in_all_bytes b : b < 256 -> In b all_bytes.
+(* zero padding + length suffix preserves the order of byte strings     *)
+Lemma bcmp_zeros_not_gt k : forall x, length x = k -> bcmp (repeat 0 k) x <> Gt.
 Proof.
-  intros H. unfold all_bytes. apply in_map_iff. exists (N.to_nat b). split; [lia|].
-  apply in_seq. lia.
-Qed.
-Lemma byte_sweep (f : N -> bool) : forallb f all_bytes = true -> forall b, b < 256 -> f b = true.
-Proof. intros H b Hb. rewrite forallb_forall in H. apply H, in_all_bytes, Hb. Qed.
-
-Lemma lxor128 b : b < 256 -> N.lxor b 128 = if b <? 128 then b + 128 else b - 128.
-Proof.
-  intros H. apply N.eqb_eq.
-  apply (byte_sweep (fun b => N.lxor b 128 =? (if b <? 128 then b + 128 else b - 128)));
-    [vm_compute; reflexivity | exact H].
-Qed.
-Lemma lxor255 b : b < 256 -> N.lxor b 255 = 255 - b.
-Proof.
-  intros H. apply N.eqb_eq.
-  apply (byte_sweep (fun b => N.lxor b 255 =? 255 - b)); [vm_compute; reflexivity | exact H].
-Qed.
-Lemma land128 b : b < 256 -> (N.land b 128 =? 0) = (b <? 128).
-Proof.
-  intros H. apply Bool.eqb_prop.
-  apply (byte_sweep (fun b => Bool.eqb (N.land b 128 =? 0) (b <? 128))); [vm_compute; reflexivity | exact H].
+  induction k as [|k IH]; intros [|y x] H; cbn [repeat bcmp length] in *; try discriminate.
+  destruct y as [|p]; cbn [N.compare]; [|discriminate].
+  apply IH. lia.
 Qed.
 
-(* ------------------------------------------------------------------ *)
-(* big-endian facts                                                     *)
-Lemma byte_ok_lt b : byte_ok b = true <-> b < 256.
-Proof. unfold byte_ok. apply N.ltb_lt. Qed.
-
-Lemma bytes_ok_cons x l : bytes_ok (x :: l) = true <-> x < 256 /\ bytes_ok l = true.
-Proof. unfold bytes_ok; simpl. rewrite andb_true_iff, byte_ok_lt. reflexivity. Qed.
-
-Lemma fold_be_acc l : forall acc,
-  fold_left (fun acc b => acc * 256 + b) l acc = acc * 256 ^ len l + be_dec l.
+Lemma pad_nil_lt k b : b <> [] -> (length b <= k)%nat -> len b < p32 ->
+  bcmp (repeat 0 k ++ be_enc 4 0) (b ++ repeat 0 (k - length b) ++ be_enc 4 (len b)) = Lt.
 Proof.
-  unfold be_dec, len. induction l as [|x l IH]; intros acc.
-  - simpl. lia.
-  - cbn [fold_left length]. rewrite IH. rewrite (IH (0 * 256 + x)).
-    rewrite Nnat.Nat2N.inj_succ, N.pow_succ_r'. lia.
-Qed.
-Lemma be_dec_cons x l : be_dec (x :: l) = x * 256 ^ len l + be_dec l.
-Proof. unfold be_dec at 1. cbn [fold_left]. rewrite fold_be_acc. lia. Qed.
-
-(* equal length, equal value => equal bytes *)
-Lemma be_dec_inj a b :
-  bytes_ok a = true -> bytes_ok b = true -> length a = length b -> be_dec a = be_dec b -> a = b.
-Proof.
-  intros Ha Hb Hl E. rewrite <- (be_enc_dec a Ha), <- (be_enc_dec b Hb), Hl, E. reflexivity.
+  intros Hb Hl Hn. rewrite (app_assoc b).
+  rewrite bcmp_app_eqlen by (rewrite app_length, !repeat_length; lia).
+  pose proof (bcmp_zeros_not_gt k (b ++ repeat 0 (k - length b))) as HZ.
+  destruct (bcmp (repeat 0 k) (b ++ repeat 0 (k - length b))); auto.
+  - rewrite bcmp_be_enc by (rewrite ?pow256_4; lia). apply N.compare_lt_iff.
+    destruct b; [congruence|]. unfold len. simpl length. lia.
+  - exfalso. apply HZ; [rewrite app_length, repeat_length; lia | reflexivity].
 Qed.
 
-Lemma len_length l : len l = N.of_nat (length l). Proof. reflexivity. Qed.
+Lemma bcmp_suffix_swap h1 h2 s1 s2 t1 t2 :
+  length h1 = length h2 -> bcmp s1 s2 = bcmp t1 t2 -> bcmp (h1 ++ s1) (h2 ++ s2) = bcmp (h1 ++ t1) (h2 ++ t2).
+Proof. intros Hl E. rewrite (bcmp_app_eqlen h1 s1), (bcmp_app_eqlen h1 t1), E by exact Hl. reflexivity. Qed.
 
-Lemma pow256_8 : 256 ^ N.of_nat 8 = p64. Proof. reflexivity. Qed.
-Lemma pow256_4 : 256 ^ N.of_nat 4 = p32. Proof. reflexivity. Qed.
-Lemma pow256_7 : 256 ^ 7 = 72057594037927936. Proof. reflexivity. Qed.
-
-(* the 8 bytes of u: head byte and the value of the tail *)
-Lemma be_enc8_split u : u < p64 ->
-  exists x r, be_enc 8 u = x :: r /\ length r = 7%nat /\ x < 256 /\ bytes_ok r = true /\
-              u = x * 72057594037927936 + be_dec r /\ be_dec r < 72057594037927936.
+Lemma pad_order : forall a k b, (length a <= k)%nat -> (length b <= k)%nat -> len a < p32 -> len b < p32 ->
+  bcmp (a ++ repeat 0 (k - length a) ++ be_enc 4 (len a)) (b ++ repeat 0 (k - length b) ++ be_enc 4 (len b)) = bcmp a b.
 Proof.
-  intros Hu. pose proof (be_enc_length 8 u) as HL. pose proof (be_enc_ok 8 u) as HO.
-  pose proof (be_dec_enc_small 8 u) as HD. rewrite pow256_8 in HD. specialize (HD Hu).
-  destruct (be_enc 8 u) as [|x r]; [discriminate|].
-  apply bytes_ok_cons in HO as [Hx Hr]. exists x, r.
-  assert (Hlr : length r = 7%nat) by (simpl in HL; lia).
-  rewrite be_dec_cons in HD. pose proof (be_dec_bound r Hr) as HB.
-  unfold len in *. rewrite Hlr in *. change (N.of_nat 7) with 7 in *. rewrite pow256_7 in *.
-  repeat split; auto; lia.
-Qed.
-
-(* encv[1] ^= 0x80 on the big-endian bytes of u adds / subtracts 2^63 *)
-Lemma xor_first_be8 u : u < p64 ->
-  xor_first 128 (be_enc 8 u) = be_enc 8 (if u <? p63 then u + p63 else u - p63).
-Proof.
-  intros Hu. destruct (be_enc8_split u Hu) as (x & r & E & Hl & Hx & Hr & Hv & Hb).
-  rewrite E. cbn [xor_first]. rewrite lxor128 by exact Hx.
-  set (u' := if u <? p63 then u + p63 else u - p63).
-  assert (Hu' : u' < p64) by (unfold u'; destruct (N.ltb_spec u p63); lia).
-  apply be_dec_inj.
-  - apply bytes_ok_cons. split; [destruct (N.ltb_spec x 128); lia | exact Hr].
-  - apply be_enc_ok.
-  - rewrite be_enc_length. simpl. lia.
-  - rewrite be_dec_enc_small by (rewrite pow256_8; exact Hu').
-    rewrite be_dec_cons. unfold len. rewrite Hl. change (N.of_nat 7) with 7. rewrite pow256_7.
-    unfold u'. destruct (N.ltb_spec x 128); destruct (N.ltb_spec u p63); lia.
-Qed.
-
-Lemma xor_first_invol l : xor_first 128 (xor_first 128 l) = l.
-Proof.
-  destruct l as [|x r]; auto. cbn [xor_first].
-  rewrite N.lxor_assoc, N.lxor_nilpotent, N.lxor_0_r. reflexivity.
-Qed.
-
-Lemma compl_all_ok l : bytes_ok l = true -> bytes_ok (compl_all l) = true.
-Proof.
-  induction l as [|x l IH]; intros H; auto. apply bytes_ok_cons in H as [Hx Hl].
-  cbn [compl_all map]. apply bytes_ok_cons. split; [rewrite lxor255 by exact Hx; lia | apply IH, Hl].
-Qed.
-Lemma compl_all_length l : length (compl_all l) = length l.
-Proof. apply map_length. Qed.
-Lemma compl_all_dec l : bytes_ok l = true -> be_dec (compl_all l) = 256 ^ len l - 1 - be_dec l.
-Proof.
-  induction l as [|x l IH]; intros H; [reflexivity|]. apply bytes_ok_cons in H as [Hx Hl].
-  cbn [compl_all map]. rewrite !be_dec_cons. fold (compl_all l). rewrite IH by exact Hl.
-  rewrite lxor255 by exact Hx. pose proof (be_dec_bound l Hl) as HB.
-  unfold len in *. rewrite compl_all_length. cbn [length]. rewrite Nnat.Nat2N.inj_succ, N.pow_succ_r'.
-  set (P := 256 ^ N.of_nat (length l)) in *. nia.
-Qed.
-Lemma compl_all_invol l : compl_all (compl_all l) = l.
-Proof.
-  induction l as [|x l IH]; auto. cbn [compl_all map]. fold (compl_all l). fold (compl_all (compl_all l)).
-  rewrite IH, N.lxor_assoc, N.lxor_nilpotent, N.lxor_0_r. reflexivity.
-Qed.
-Lemma compl_all_be8 u : u < p64 -> compl_all (be_enc 8 u) = be_enc 8 (p64 - 1 - u).
-Proof.
-  intros Hu. apply be_dec_inj.
-  - apply compl_all_ok, be_enc_ok.
-  - apply be_enc_ok.
-  - rewrite compl_all_length, !be_enc_length. reflexivity.
-  - rewrite compl_all_dec by apply be_enc_ok. rewrite len_be_enc, pow256_8.
-    rewrite !be_dec_enc_small by (rewrite pow256_8; lia). reflexivity.
-Qed.
-
-(* the float mangling as arithmetic on the pattern *)
-Definition fkey (u : N) : N := if u <? p63 then u + p63 else p64 - 1 - u.
-Lemma float_mangle_be8 u : u < p64 -> float_mangle (be_enc 8 u) = be_enc 8 (fkey u).
-Proof.
-  intros Hu. destruct (be_enc8_split u Hu) as (x & r & E & Hl & Hx & Hr & Hv & Hb).
-  unfold float_mangle, fkey. rewrite E. rewrite land128 by exact Hx. rewrite <- E.
-  destruct (N.ltb_spec x 128) as [L|G]; cbn [negb].
-  - rewrite xor_first_be8 by exact Hu. destruct (N.ltb_spec u p63); [reflexivity | lia].
-  - rewrite compl_all_be8 by exact Hu. destruct (N.ltb_spec u p63); [lia | reflexivity].
-Qed.
-Lemma fkey_lt u : u < p64 -> fkey u < p64.
-Proof. unfold fkey. destruct (N.ltb_spec u p63); lia. Qed.
-Lemma float_demangle_be8 u : u < p64 -> float_demangle (be_enc 8 (fkey u)) = be_enc 8 u.
-Proof.
-  intros Hu. pose proof (fkey_lt u Hu) as Hk.
-  destruct (be_enc8_split (fkey u) Hk) as (x & r & E & Hl & Hx & Hr & Hv & Hb).
-  unfold float_demangle. rewrite E. rewrite land128 by exact Hx. rewrite <- E.
-  unfold fkey in *. destruct (N.ltb_spec u p63) as [L|G].
-  - destruct (N.ltb_spec x 128); [lia|]. cbn [negb].
-    rewrite xor_first_be8 by lia. destruct (N.ltb_spec (u + p63) p63); [lia|]. f_equal. lia.
-  - destruct (N.ltb_spec x 128); [|lia]. cbn [negb].
-    rewrite compl_all_be8 by lia. f_equal. lia.
+  induction a as [|x a IH]; intros k b Ha Hb La Lb.
+  - destruct b as [|y b].
+    + apply bcmp_refl.
+    + cbn [app length]. rewrite Nat.sub_0_r. change (len []) with 0.
+      change (y :: b ++ repeat 0 (k - S (length b)) ++ be_enc 4 (len (y :: b)))
+        with ((y :: b) ++ repeat 0 (k - length (y :: b)) ++ be_enc 4 (len (y :: b))).
+      rewrite pad_nil_lt; auto. discriminate.
+  - destruct b as [|y b].
+    + rewrite bcmp_antisym. cbn [app length]. rewrite Nat.sub_0_r. change (len []) with 0.
+      change (x :: a ++ repeat 0 (k - S (length a)) ++ be_enc 4 (len (x :: a)))
+        with ((x :: a) ++ repeat 0 (k - length (x :: a)) ++ be_enc 4 (len (x :: a))).
+      rewrite pad_nil_lt; auto. discriminate.
+    + destruct k as [|k]; [simpl in Ha; lia|].
+      cbn [app length bcmp]. rewrite !Nat.sub_succ.
+      destruct (N.compare x y); auto.
+      assert (E : forall (z : N) l, len (z :: l) = len l + 1) by (intros; unfold len; simpl length; lia).
+      (* the length suffixes compare like the lengths of the tails *)
+      assert (G : forall a' b', (length a' <= k)%nat -> (length b' <= k)%nat -> len a' + 1 < p32 -> len b' + 1 < p32 ->
+                 bcmp (a' ++ repeat 0 (k - length a') ++ be_enc 4 (len a' + 1))
+                      (b' ++ repeat 0 (k - length b') ++ be_enc 4 (len b' + 1)) =
+                 bcmp (a' ++ repeat 0 (k - length a') ++ be_enc 4 (len a'))
+                      (b' ++ repeat 0 (k - length b') ++ be_enc 4 (len b'))).
+      { intros a' b' H1 H2 H3 H4. rewrite !(app_assoc _ (repeat _ _)).
+        apply bcmp_suffix_swap; [rewrite !app_length, !repeat_length; lia|].
+        rewrite !bcmp_be_enc by (rewrite pow256_4; lia).
+        destruct (N.compare_spec (len a') (len b')); [apply N.compare_eq_iff | apply N.compare_lt_iff | apply N.compare_gt_iff]; lia. }
+      rewrite !E. rewrite E in La, Lb. simpl in Ha, Hb.
+      rewrite G by lia. apply IH; lia.
 Qed.
 
 (* ------------------------------------------------------------------ *)
-(* int64 <-> uint64                                                     *)
-Definition int64_ok (z : Z) : Prop := (- zp63 <= z < zp63)%Z.
+(* normal form of a successfully encoded key                            *)
+Definition key_nf (fz : bool) (ty : sqltype) (ml : N) (v : sqlval) (k : bytes) (n : N) : Prop :=
+  match v with
+  | VNull => k = [32] /\ n = 0
+  | VInt z => ty = TInteger /\ ml = 8 /\ k = 128 :: be_enc 8 (ikey z) /\ n = 8
+  | VBool b => ty = TBoolean /\ ml = 1 /\ k = [128; if b then 1 else 0] /\ n = 1
+  | VStr s => ty = TVarchar /\ len s <= ml /\
+              k = 128 :: s ++ repeat 0 (N.to_nat ml - length s) ++ be_enc 4 (len s) /\ n = len s
+  | VBlob s => ty = TBlob /\ len s <= ml /\
+              k = 128 :: s ++ repeat 0 (N.to_nat ml - length s) ++ be_enc 4 (len s) /\ n = len s
+  | VUuid u => ty = TUuid /\ k = 128 :: u /\ n = 16
+  | VTs ns => ty = TTimestamp /\ ml = 8 /\ k = 128 :: be_enc 8 (ikey (unix_nano ns)) /\ n = 8
+  | VFloat bits => ty = TFloat /\ k = 128 :: be_enc 8 (fkey (float_key_bits fz bits)) /\ n = 8
+  end.
 
-Lemma wrap64_lt z : wrap64 z < p64.
-Proof. unfold wrap64. lia. Qed.
-Lemma to_int64_ok u : u < p64 -> int64_ok (to_int64 u).
-Proof. unfold to_int64, int64_ok. intros H. destruct (N.ltb_spec u p63); lia. Qed.
-Lemma to_int64_wrap64 z : int64_ok z -> to_int64 (wrap64 z) = z.
-Proof. unfold to_int64, wrap64, int64_ok. intros H. destruct (N.ltb_spec (Z.to_N (z mod zp64)) p63); lia. Qed.
-Lemma wrap64_to_int64 u : u < p64 -> wrap64 (to_int64 u) = u.
-Proof. unfold to_int64, wrap64. intros H. destruct (N.ltb_spec u p63); lia. Qed.
-Lemma unix_nano_ok ns : int64_ok (unix_nano ns).
-Proof. apply to_int64_ok, wrap64_lt. Qed.
-Lemma unix_nano_id ns : int64_ok ns -> unix_nano ns = ns.
-Proof. apply to_int64_wrap64. Qed.
-
-(* the number whose 8 big-endian bytes follow the tag in an INTEGER / TIMESTAMP key *)
-Definition ikey (z : Z) : N := Z.to_N (z + zp63).
-Lemma int_key_bytes z : int64_ok z -> xor_first 128 (be_enc 8 (wrap64 z)) = be_enc 8 (ikey z).
+Lemma val_ok_true ty ml v : val_ok ty ml v = true ->
+  match v with
+  | VNull => True
+  | VInt z => ty = TInteger /\ int64_ok z
+  | VBool _ => ty = TBoolean
+  | VStr s => ty = TVarchar /\ bytes_ok s = true /\ len s <= ml
+  | VBlob s => ty = TBlob /\ bytes_ok s = true /\ len s <= ml
+  | VUuid u => ty = TUuid /\ bytes_ok u = true /\ len u = 16
+  | VTs _ => ty = TTimestamp
+  | VFloat b => ty = TFloat /\ b < p64
+  end.
 Proof.
-  intros H. rewrite xor_first_be8 by apply wrap64_lt. f_equal.
-  unfold wrap64, ikey, int64_ok in *. destruct (N.ltb_spec (Z.to_N (z mod zp64)) p63); lia.
+  unfold int64_ok. destruct v, ty; simpl; try discriminate; auto; intros H;
+    repeat match goal with H : _ && _ = true |- _ => apply andb_prop in H as [? ?] end;
+    repeat split; auto; lia.
 Qed.
-Lemma ikey_lt z : int64_ok z -> ikey z < p64.
-Proof. unfold ikey, int64_ok. lia. Qed.
-Lemma ikey_compare a b : int64_ok a -> int64_ok b -> N.compare (ikey a) (ikey b) = Z.compare a b.
+
+Lemma float_key_bits_lt fz b : b < p64 -> float_key_bits fz b < p64.
+Proof. unfold float_key_bits. destruct (fz && f_iszero b); lia. Qed.
+
+Lemma zeros_repeat ml s : zeros (ml - len s) = repeat 0 (N.to_nat ml - length s).
+Proof. unfold zeros, len. f_equal. lia. Qed.
+
+Lemma enc_key_nf fz mkl ty ml v k n : mkl < p32 ->
+  val_ok ty ml v = true -> enc_key_gen fz mkl ty ml v = Ok (k, n) ->
+  key_nf fz ty ml v k n /\ 1 <= ml <= mkl.
 Proof.
-  unfold ikey, int64_ok. intros Ha Hb.
-  destruct (Z.compare_spec a b); [apply N.compare_eq_iff | apply N.compare_lt_iff | apply N.compare_gt_iff]; lia.
+  intros Hm Hv. apply val_ok_true in Hv. unfold enc_key_gen.
+  destruct (N.eqb_spec ml 0) as [|M0]; [discriminate|].
+  destruct (N.ltb_spec mkl ml) as [|M1]; [discriminate|].
+  unfold sq_KeyValPrefixNull, sq_KeyValPrefixNotNull.
+  intros E. split; [|lia].
+  destruct v; cbn [key_nf].
+  - split; congruence.
+  - destruct Hv as [-> Hz]. destruct (N.eqb_spec ml 8) as [->|]; cbn [negb] in E; [|discriminate].
+    rewrite int_key_bytes in E by exact Hz. repeat split; congruence.
+  - subst ty. destruct (N.eqb_spec ml 1) as [->|]; cbn [negb] in E; [|discriminate].
+    repeat split; congruence.
+  - destruct Hv as (-> & Hs & Hl). destruct (N.ltb_spec ml (len s)); [discriminate|].
+    rewrite N.mod_small in E by lia. rewrite zeros_repeat in E. cbn [app] in E. repeat split; auto; congruence.
+  - destruct Hv as (-> & Hs & Hl). destruct (N.ltb_spec ml (len s)); [discriminate|].
+    rewrite N.mod_small in E by lia. rewrite zeros_repeat in E. cbn [app] in E. repeat split; auto; congruence.
+  - destruct Hv as (-> & Hs & Hl).
+    replace (take 16 (u ++ zeros 16)) with u in E
+      by (symmetry; rewrite <- Hl; apply take_app_exact).
+    repeat split; congruence.
+  - subst ty. destruct (N.eqb_spec ml 8) as [->|]; cbn [negb] in E; [|discriminate].
+    rewrite int_key_bytes in E by apply unix_nano_ok. repeat split; congruence.
+  - destruct Hv as [-> Hb]. rewrite float_mangle_be8 in E by (apply float_key_bits_lt, Hb).
+    repeat split; congruence.
 Qed.
 
 (* ------------------------------------------------------------------ *)
-(* floats: order of the mangled patterns                                *)
-Lemma f_decomp a : a < p64 ->
-  a = f_sign a * p63 + f_exp a * 4503599627370496 + f_mant a /\
-  f_sign a < 2 /\ f_exp a < 2048 /\ f_mant a < 4503599627370496.
-Proof. unfold f_sign, f_exp, f_mant. intros H. lia. Qed.
-
-Lemma float_order a b : a < p64 -> b < p64 ->
-  f_isnan a = false -> f_isnan b = false ->
-  (f_iszero a && f_iszero b = false \/ a = b) ->
-  N.compare (fkey a) (fkey b) = float_compare a b.
+(* -0.0 and +0.0                                                        *)
+Lemma f_iszero_spec a : a < p64 -> (f_iszero a = true <-> a = 0 \/ a = p63).
 Proof.
-  intros Ha Hb Na Nb Hz.
-  destruct (f_decomp a Ha) as (Da & Sa & Ea & Ma). destruct (f_decomp b Hb) as (Db & Sb & Eb & Mb).
-  unfold float_compare, f_eq, f_gt. rewrite Na, Nb. cbn [negb andb].
-  unfold f_isnan, f_iszero in *.
-  set (sa := f_sign a) in *; set (ea := f_exp a) in *; set (ma := f_mant a) in *.
-  set (sb := f_sign b) in *; set (eb := f_exp b) in *; set (mb := f_mant b) in *.
-  unfold mag_compare. fold ea eb ma mb.
-  assert (FA : fkey a = if sa =? 0 then a + p63 else p64 - 1 - a).
-  { unfold fkey. destruct (N.ltb_spec a p63); destruct (N.eqb_spec sa 0); lia. }
-  assert (FB : fkey b = if sb =? 0 then b + p63 else p64 - 1 - b).
-  { unfold fkey. destruct (N.ltb_spec b p63); destruct (N.eqb_spec sb 0); lia. }
-  rewrite FA, FB. clear FA FB.
-  destruct Hz as [Hz | Hz].
-  - (* not both zero *)
-    rewrite Hz. cbn [orb negb andb].
-    destruct (N.eqb_spec a b) as [E|NE].
-    + subst b. apply N.compare_eq_iff. reflexivity.
-    + destruct (N.eqb_spec sa 0) as [SA|SA]; destruct (N.eqb_spec sb 0) as [SB|SB];
-      destruct (N.compare_spec ea eb) as [EE|EL|EG]; try destruct (N.compare_spec ma mb) as [ME|ML|MG];
-      try (apply N.compare_lt_iff; lia); try (apply N.compare_gt_iff; lia); try (exfalso; lia).
-      all: destruct (N.eqb_spec ea 0); destruct (N.eqb_spec ma 0); destruct (N.eqb_spec eb 0); destruct (N.eqb_spec mb 0);
-           cbn [andb] in Hz; try discriminate; try (apply N.compare_lt_iff; lia); try (apply N.compare_gt_iff; lia).
-  - subst b. rewrite N.eqb_refl, orb_true_r. apply N.compare_eq_iff. reflexivity.
+  intros Ha. destruct (f_decomp a Ha) as (D & S & E & M). unfold f_iszero.
+  rewrite andb_true_iff, !N.eqb_eq. lia.
 Qed.
+
+Lemma float_compare_negzero_l b : float_compare p63 b = float_compare 0 b.
+Proof.
+  unfold float_compare, f_eq, f_gt, mag_compare.
+  change (f_isnan p63) with false. change (f_isnan 0) with false.
+  change (f_iszero p63) with true. change (f_iszero 0) with true.
+  change (f_sign p63 =? 0) with false. change (f_sign 0 =? 0) with true.
+  change (f_exp p63) with 0. change (f_exp 0) with 0. change (f_mant p63) with 0. change (f_mant 0) with 0.
+  cbn [negb andb]. destruct (f_isnan b) eqn:NB; cbn [negb andb]; [reflexivity|].
+  destruct (f_iszero b) eqn:ZB; cbn [orb negb andb]; [reflexivity|].
+  assert (b <> 0 /\ b <> p63) as [B0 B1].
+  { split; intros ->; vm_compute in ZB; discriminate. }
+  destruct (N.eqb_spec p63 b); [congruence|]. destruct (N.eqb_spec 0 b); [congruence|].
+  unfold f_iszero in ZB.
+  destruct (f_sign b =? 0); destruct (f_exp b) as [|pe]; destruct (f_mant b) as [|pm];
+    cbn [N.compare N.eqb andb] in *; try reflexivity; discriminate.
+Qed.
+
+Lemma float_compare_negzero_r a : float_compare a p63 = float_compare a 0.
+Proof.
+  unfold float_compare, f_eq, f_gt, mag_compare.
+  change (f_isnan p63) with false. change (f_isnan 0) with false.
+  change (f_iszero p63) with true. change (f_iszero 0) with true.
+  change (f_sign p63 =? 0) with false. change (f_sign 0 =? 0) with true.
+  change (f_exp p63) with 0. change (f_exp 0) with 0. change (f_mant p63) with 0. change (f_mant 0) with 0.
+  destruct (f_isnan a) eqn:NA; cbn [negb andb]; [reflexivity|].
+  destruct (f_iszero a) eqn:ZA; rewrite ?andb_true_r, ?andb_false_r; cbn [orb negb andb]; [reflexivity|].
+  assert (a <> 0 /\ a <> p63) as [A0 A1].
+  { split; intros ->; vm_compute in ZA; discriminate. }
+  destruct (N.eqb_spec a p63); [congruence|]. destruct (N.eqb_spec a 0); [congruence|].
+  unfold f_iszero in ZA.
+  destruct (f_sign a =? 0); destruct (f_exp a) as [|pe]; destruct (f_mant a) as [|pm];
+    cbn [N.compare N.eqb andb] in *; try reflexivity; discriminate.
+Qed.
+
+Lemma float_compare_norm a b : a < p64 -> b < p64 ->
+  float_compare (float_key_bits true a) (float_key_bits true b) = float_compare a b.
+Proof.
+  intros Ha Hb. unfold float_key_bits. cbn [andb].
+  destruct (f_iszero a) eqn:ZA; destruct (f_iszero b) eqn:ZB;
+    try (apply (f_iszero_spec a Ha) in ZA; destruct ZA as [-> | ->]);
+    try (apply (f_iszero_spec b Hb) in ZB; destruct ZB as [-> | ->]);
+    rewrite ?float_compare_negzero_l, ?float_compare_negzero_r; reflexivity.
+Qed.
+
+Lemma f_isnan_norm fz a : a < p64 -> f_isnan (float_key_bits fz a) = f_isnan a.
+Proof.
+  intros Ha. unfold float_key_bits. destruct fz; cbn [andb]; auto.
+  destruct (f_iszero a) eqn:Z; auto. apply (f_iszero_spec a Ha) in Z. destruct Z as [-> | ->]; reflexivity.
+Qed.
+
+(* ------------------------------------------------------------------ *)
+(* THE ORDER THEOREM                                                    *)
+Lemma in_order_domain_float fz b : in_order_domain fz (VFloat b) = true ->
+  f_isnan b = false /\ (fz = true \/ b <> p63).
+Proof.
+  cbn [in_order_domain]. rewrite andb_true_iff, negb_true_iff, orb_true_iff, negb_true_iff, N.eqb_neq. tauto.
+Qed.
+Lemma in_order_domain_ts fz ns : in_order_domain fz (VTs ns) = true -> int64_ok ns.
+Proof. cbn [in_order_domain]. unfold int64_ok. lia. Qed.
+
+Lemma float_key_order fz a b : a < p64 -> b < p64 ->
+  in_order_domain fz (VFloat a) = true -> in_order_domain fz (VFloat b) = true ->
+  N.compare (fkey (float_key_bits fz a)) (fkey (float_key_bits fz b)) = float_compare a b.
+Proof.
+  intros Ha Hb Da Db.
+  apply in_order_domain_float in Da as [Na Za]. apply in_order_domain_float in Db as [Nb Zb].
+  destruct fz.
+  - rewrite <- (float_compare_norm a b Ha Hb).
+    apply float_order; try apply float_key_bits_lt; auto; try (rewrite f_isnan_norm; auto).
+    unfold float_key_bits. cbn [andb].
+    destruct (f_iszero a) eqn:ZA; destruct (f_iszero b) eqn:ZB;
+      [right; reflexivity | left; rewrite ZB; apply andb_false_r
+       | left; rewrite ZA; reflexivity | left; rewrite ZA; reflexivity].
+  - destruct Za as [|Za]; [discriminate|]. destruct Zb as [|Zb]; [discriminate|].
+    unfold float_key_bits. cbn [andb]. apply float_order; auto.
+    destruct (f_iszero a) eqn:ZA; destruct (f_iszero b) eqn:ZB; auto.
+    apply (f_iszero_spec a Ha) in ZA. apply (f_iszero_spec b Hb) in ZB. right. lia.
+Qed.
+
+Theorem key_order_gen fz mkl ty ml a b ka na kb nb :
+  mkl < p32 ->
+  val_ok ty ml a = true -> val_ok ty ml b = true ->
+  in_order_domain fz a = true -> in_order_domain fz b = true ->
+  enc_key_gen fz mkl ty ml a = Ok (ka, na) -> enc_key_gen fz mkl ty ml b = Ok (kb, nb) ->
+  sql_compare a b = Some (bcmp ka kb).
+Proof.
+  intros Hm Va Vb Da Db Ea Eb.
+  destruct (enc_key_nf fz mkl ty ml a ka na Hm Va Ea) as [NA Hml].
+  destruct (enc_key_nf fz mkl ty ml b kb nb Hm Vb Eb) as [NB _].
+  apply val_ok_true in Va. apply val_ok_true in Vb.
+  destruct a, b; cbn [key_nf] in NA, NB; cbn [sql_compare];
+    repeat match goal with H : _ /\ _ |- _ => destruct H end; subst; try discriminate;
+    try reflexivity.
+  - (* INTEGER *)
+    cbn [bcmp]. rewrite N.compare_refl, bcmp_be_enc by (rewrite pow256_8; apply ikey_lt; assumption).
+    rewrite ikey_compare by assumption. reflexivity.
+  - (* BOOLEAN *) destruct b0, b; reflexivity.
+  - (* VARCHAR *)
+    cbn [bcmp]. rewrite N.compare_refl. rewrite pad_order by (unfold len in *; lia). reflexivity.
+  - (* BLOB *)
+    cbn [bcmp]. rewrite N.compare_refl. rewrite pad_order by (unfold len in *; lia). reflexivity.
+  (* UUID: closed by reflexivity above *)
+  - (* TIMESTAMP *)
+    apply in_order_domain_ts in Da, Db.
+    cbn [bcmp]. rewrite N.compare_refl, bcmp_be_enc by (rewrite pow256_8; apply ikey_lt, unix_nano_ok).
+    rewrite ikey_compare by apply unix_nano_ok. rewrite !unix_nano_id by assumption. reflexivity.
+  - (* FLOAT *)
+    cbn [bcmp]. rewrite N.compare_refl,
+      bcmp_be_enc by (rewrite pow256_8; apply fkey_lt, float_key_bits_lt; assumption).
+    rewrite float_key_order by assumption. reflexivity.
+Qed.
+
+(* ------------------------------------------------------------------ *)
+(* equal values, identical keys                                         *)
+Definition eq_domain (fz : bool) (v : sqlval) : bool :=
+  match v with VFloat b => fz || negb (b =? p63) | _ => true end.
+
+Lemma float_compare_eq a b : float_compare a b = Eq -> f_eq a b = true.
+Proof. unfold float_compare. destruct (f_eq a b); auto. destruct (f_gt a b); discriminate. Qed.
+
+Theorem equal_values_equal_keys_gen fz mkl ty ml a b ka na kb nb :
+  mkl < p32 ->
+  val_ok ty ml a = true -> val_ok ty ml b = true ->
+  eq_domain fz a = true -> eq_domain fz b = true ->
+  enc_key_gen fz mkl ty ml a = Ok (ka, na) -> enc_key_gen fz mkl ty ml b = Ok (kb, nb) ->
+  sql_compare a b = Some Eq -> ka = kb.
+Proof.
+  intros Hm Va Vb Da Db Ea Eb.
+  destruct (enc_key_nf fz mkl ty ml a ka na Hm Va Ea) as [NA Hml].
+  destruct (enc_key_nf fz mkl ty ml b kb nb Hm Vb Eb) as [NB _].
+  apply val_ok_true in Va. apply val_ok_true in Vb.
+  destruct a, b; cbn [key_nf] in NA, NB; cbn [sql_compare];
+    repeat match goal with H : _ /\ _ |- _ => destruct H end; subst; try discriminate;
+    intros C; try reflexivity.
+  - assert (E : (z ?= z0)%Z = Eq) by congruence. apply Z.compare_eq in E. subst. reflexivity.
+  - destruct b0, b; try discriminate; reflexivity.
+  - assert (E : bcmp s s0 = Eq) by congruence. apply bcmp_eq in E. subst. reflexivity.
+  - assert (E : bcmp s s0 = Eq) by congruence. apply bcmp_eq in E. subst. reflexivity.
+  - assert (E : bcmp u u0 = Eq) by congruence. apply bcmp_eq in E. subst. reflexivity.
+  - assert (E : (ns ?= ns0)%Z = Eq) by congruence. apply Z.compare_eq in E. subst. reflexivity.
+  - assert (E : float_compare bits bits0 = Eq) by congruence. apply float_compare_eq in E.
+    unfold f_eq in E. apply andb_prop in E as [E1 E2]. apply orb_prop in E2.
+    cbn [eq_domain] in Da, Db. unfold float_key_bits.
+    destruct fz; cbn [andb orb] in *.
+    + destruct E2 as [E2|E2].
+      * apply andb_prop in E2 as [-> ->]. reflexivity.
+      * apply N.eqb_eq in E2. subst. reflexivity.
+    + apply negb_true_iff, N.eqb_neq in Da, Db. destruct E2 as [E2|E2].
+      * apply andb_prop in E2 as [Z1 Z2].
+        apply (f_iszero_spec bits) in Z1; auto. apply (f_iszero_spec bits0) in Z2; auto.
+        replace bits with 0 by lia. replace bits0 with 0 by lia. reflexivity.
+      * apply N.eqb_eq in E2. subst. reflexivity.
+Qed.
+
+(* ------------------------------------------------------------------ *)
+(* composite keys                                                       *)
+Definition same_shape (x y : bytes) : Prop :=
+  length x = length y \/ exists hx tx hy ty, x = hx :: tx /\ y = hy :: ty /\ hx <> hy.
+
+Lemma bcmp_app_shape x y x' y' : same_shape x y ->
+  bcmp (x ++ x') (y ++ y') = match bcmp x y with Eq => bcmp x' y' | c => c end.
+Proof.
+  intros [H | (hx & tx & hy & ty & -> & -> & NE)]; [apply bcmp_app_eqlen, H|].
+  cbn [app bcmp]. destruct (N.compare_spec hx hy); [contradiction | reflexivity | reflexivity].
+Qed.
+
+Lemma key_nf_shape fz ty ml a b ka na kb nb :
+  val_ok ty ml a = true -> val_ok ty ml b = true ->
+  key_nf fz ty ml a ka na -> key_nf fz ty ml b kb nb -> same_shape ka kb.
+Proof.
+  intros Va Vb NA NB. apply val_ok_true in Va. apply val_ok_true in Vb.
+  destruct a, b; cbn [key_nf] in NA, NB;
+    repeat match goal with H : _ /\ _ |- _ => destruct H end; subst; try discriminate;
+    try (left; reflexivity);
+    try (right; do 4 eexists; split; [reflexivity | split; [reflexivity | discriminate]]).
+  all: left; cbn [length]; rewrite ?app_length, ?repeat_length, ?be_enc_length; unfold len in *; lia.
+Qed.
+
+Fixpoint tuple_ok (fz : bool) (cols : list col) (vals : list sqlval) : bool :=
+  match cols, vals with
+  | [], [] => true
+  | (ty, ml) :: cs, v :: vs => val_ok ty ml v && in_order_domain fz v && tuple_ok fz cs vs
+  | _, _ => false
+  end.
+
+Theorem composite_gen fz mkl : mkl < p32 -> forall cols va vb ka kb ta tb,
+  tuple_ok fz cols va = true -> tuple_ok fz cols vb = true ->
+  enc_tuple_gen fz mkl cols va = Ok ka -> enc_tuple_gen fz mkl cols vb = Ok kb ->
+  exists c, tuple_compare va vb = Some c /\
+            bcmp (ka ++ ta) (kb ++ tb) = match c with Eq => bcmp ta tb | _ => c end.
+Proof.
+  intros Hm. induction cols as [|[ty ml] cs IH]; intros va vb ka kb ta tb Oa Ob Ea Eb.
+  - destruct va, vb; try discriminate. cbn in Ea, Eb.
+    assert (ka = []) by congruence. assert (kb = []) by congruence. subst.
+    exists Eq. split; reflexivity.
+  - destruct va as [|x va]; [discriminate|]. destruct vb as [|y vb]; [discriminate|].
+    cbn [tuple_ok] in Oa, Ob.
+    apply andb_prop in Oa as [Oa Oa3]. apply andb_prop in Oa as [Oa1 Oa2].
+    apply andb_prop in Ob as [Ob Ob3]. apply andb_prop in Ob as [Ob1 Ob2].
+    cbn [enc_tuple_gen] in Ea, Eb.
+    apply bind_ok in Ea as ([k1 n1] & Ea1 & Ea). apply bind_ok in Ea as (ra & Ea2 & Ea).
+    apply bind_ok in Eb as ([k2 n2] & Eb1 & Eb). apply bind_ok in Eb as (rb & Eb2 & Eb).
+    cbn [fst] in Ea, Eb. assert (ka = k1 ++ ra) by congruence. assert (kb = k2 ++ rb) by congruence. subst.
+    rewrite <- !app_assoc.
+    destruct (enc_key_nf _ _ _ _ _ _ _ Hm Oa1 Ea1) as [N1 _].
+    destruct (enc_key_nf _ _ _ _ _ _ _ Hm Ob1 Eb1) as [N2 _].
+    rewrite bcmp_app_shape by (apply (key_nf_shape fz ty ml x y k1 n1 k2 n2); assumption).
+    pose proof (key_order_gen _ _ _ _ _ _ _ _ _ _ Hm Oa1 Ob1 Oa2 Ob2 Ea1 Eb1) as KO.
+    cbn [tuple_compare]. rewrite KO.
+    destruct (bcmp k1 k2).
+    + apply IH; auto.
+    + exists Lt. split; reflexivity.
+    + exists Gt. split; reflexivity.
+Qed.
+
+Lemma tuple_ok_length fz : forall cols vals, tuple_ok fz cols vals = true -> length vals = length cols.
+Proof.
+  induction cols as [|[ty ml] cs IH]; intros [|v vs] H; try discriminate; auto.
+  cbn [tuple_ok] in H. apply andb_prop in H as [_ H]. simpl. f_equal. auto.
+Qed.
+
+Lemma tuple_compare_app : forall va vb pa pb, length va = length vb ->
+  tuple_compare (va ++ pa) (vb ++ pb) =
+  match tuple_compare va vb with Some Eq => tuple_compare pa pb | r => r end.
+Proof.
+  induction va as [|x va IH]; intros [|y vb] pa pb H; try discriminate; [reflexivity|].
+  cbn [app tuple_compare]. destruct (sql_compare x y) as [[| |]|]; auto.
+Qed.
+
+(* the whole index entry key: same table and index, order = (index columns, then primary key) *)
+Theorem index_key_order_gen fz mkl prefix tid iid cols pkcols va vb pa pb KA KB :
+  mkl < p32 ->
+  tuple_ok fz cols va = true -> tuple_ok fz cols vb = true ->
+  tuple_ok fz pkcols pa = true -> tuple_ok fz pkcols pb = true ->
+  (do ev <- enc_tuple_gen fz mkl cols va; do pk <- enc_tuple_gen fz mkl pkcols pa;
+   Ok (map_key prefix sq_MappedPrefix [enc_id tid; enc_id iid; ev; pk])) = Ok KA ->
+  (do ev <- enc_tuple_gen fz mkl cols vb; do pk <- enc_tuple_gen fz mkl pkcols pb;
+   Ok (map_key prefix sq_MappedPrefix [enc_id tid; enc_id iid; ev; pk])) = Ok KB ->
+  tuple_compare (va ++ pa) (vb ++ pb) = Some (bcmp KA KB).
+Proof.
+  intros Hm Oa Ob Pa Pb Ea Eb.
+  apply bind_ok in Ea as (ea & Ea1 & Ea). apply bind_ok in Ea as (pka & Ea2 & Ea).
+  apply bind_ok in Eb as (eb & Eb1 & Eb). apply bind_ok in Eb as (pkb & Eb2 & Eb).
+  assert (KA = map_key prefix sq_MappedPrefix [enc_id tid; enc_id iid; ea; pka]) by congruence.
+  assert (KB = map_key prefix sq_MappedPrefix [enc_id tid; enc_id iid; eb; pkb]) by congruence.
+  subst. unfold map_key. cbn [List.concat]. rewrite !app_nil_r.
+  rewrite !bcmp_app_same.
+  destruct (composite_gen fz mkl Hm cols va vb ea eb pka pkb Oa Ob Ea1 Eb1) as (c & C1 & C2).
+  destruct (composite_gen fz mkl Hm pkcols pa pb pka pkb [] [] Pa Pb Ea2 Eb2) as (c' & C1' & C2').
+  rewrite !app_nil_r in C2'. cbn [bcmp] in C2'.
+  rewrite tuple_compare_app by (rewrite (tuple_ok_length _ _ _ Oa), (tuple_ok_length _ _ _ Ob); reflexivity).
+  rewrite C1, C2. destruct c; auto.
+  rewrite C1', C2'. destruct c'; reflexivity.
+Qed.
+
+(* ------------------------------------------------------------------ *)
+(* DecodeValueFromKey (EncodeRawValueAsKey v) = v, also when the key is followed by other columns *)
+Lemma at_0 x l : at_ (x :: l) 0 = Ok x. Proof. reflexivity. Qed.
+Lemma at_1 x y l : at_ (x :: y :: l) 1 = Ok y. Proof. reflexivity. Qed.
+Lemma len_cons (x : N) l : len (x :: l) = 1 + len l.
+Proof. unfold len. simpl length. lia. Qed.
+Lemma sub_cons_1 x p r j : j = 1 + len p -> sub_ (x :: p ++ r) 1 j = Ok p.
+Proof.
+  intros ->. rewrite sub_ok by (rewrite ?len_cons, ?len_app; lia).
+  replace (1 + len p - 1) with (len p) by lia.
+  change (drop 1 (x :: p ++ r)) with (p ++ r). rewrite take_app_exact. reflexivity.
+Qed.
+Lemma from_app_exact p q i : i = len p -> from_ (p ++ q) i = Ok q.
+Proof. intros ->. rewrite from_ok by (rewrite len_app; lia). rewrite drop_app_exact. reflexivity. Qed.
+Lemma uint_be k v r : v < 256 ^ N.of_nat k -> uint_ k (be_enc k v ++ r) = Ok v.
+Proof.
+  intros H. rewrite uint_ok by (rewrite len_app, len_be_enc; lia).
+  rewrite firstn_app, be_enc_length, Nat.sub_diag, firstn_O, app_nil_r.
+  rewrite <- (be_enc_length k v) at 1. rewrite firstn_all. rewrite be_dec_enc_small by exact H. reflexivity.
+Qed.
+
+Ltac ltb_false :=
+  match goal with |- context [if ?a <? ?b then _ else _] =>
+    destruct (N.ltb_spec a b) as [?|?]; [lia|] end.
+
+(* what a decoded key value is: the value itself, except that the -0.0 normalisation (if enabled)
+   has turned -0.0 into +0.0 *)
+Definition key_canon (fz : bool) (v : sqlval) : sqlval :=
+  match v with VFloat b => VFloat (float_key_bits fz b) | _ => v end.
+(* timestamps inside the UnixNano range *)
+Definition key_rt_domain (v : sqlval) : bool :=
+  match v with VTs ns => (- zp63 <=? ns)%Z && (ns <? zp63)%Z | _ => true end.
+
+Theorem key_decode_encode_gen fz mkl ty ml v k n rest :
+  mkl < p32 -> col_ok mkl (ty, ml) = true ->
+  val_ok ty ml v = true -> key_rt_domain v = true ->
+  enc_key_gen fz mkl ty ml v = Ok (k, n) ->
+  dec_key ty ml (k ++ rest) = Ok (key_canon fz v, len k).
+Proof.
+  intros Hm Hc Hv Hd E.
+  destruct (enc_key_nf fz mkl ty ml v k n Hm Hv E) as [NF Hml].
+  pose proof (val_ok_true _ _ _ Hv) as Hv'.
+  unfold col_ok in Hc. apply andb_prop in Hc as [_ Hc]. apply N.eqb_eq in Hc.
+  unfold dec_key. destruct (N.eqb_spec ml 0) as [|_]; [lia|].
+  unfold sq_KeyValPrefixNull, sq_KeyValPrefixNotNull, sq_EncLenLen.
+  destruct v; cbn [key_nf] in NF; repeat match goal with H : _ /\ _ |- _ => destruct H end; subst;
+    cbn [key_canon app]; rewrite ?len_cons, ?len_app, ?len_be_enc;
+    change (N.of_nat 8) with 8; change (N.of_nat 4) with 4; change (len []) with 0.
+  - (* NULL *)
+    ltb_false. rewrite at_0. reflexivity.
+  - (* INTEGER *)
+    ltb_false. rewrite at_0. cbn [bind N.eqb Pos.eqb negb]. ltb_false.
+    rewrite sub_cons_1 by (rewrite len_be_enc; reflexivity). cbn [bind].
+    rewrite <- int_key_bytes by assumption. rewrite xor_first_invol.
+    rewrite be_dec_enc_small by (rewrite pow256_8; apply wrap64_lt).
+    rewrite to_int64_wrap64 by assumption. reflexivity.
+  - (* BOOLEAN *)
+    ltb_false. rewrite at_0. cbn [bind N.eqb Pos.eqb negb]. ltb_false. rewrite at_1. cbn [bind].
+    destruct b; reflexivity.
+  - (* VARCHAR *)
+    assert (LR : len (repeat 0 (N.to_nat ml - length s)) = ml - len s) by (unfold len; rewrite repeat_length; lia).
+    rewrite LR.
+    ltb_false. rewrite at_0. cbn [bind N.eqb Pos.eqb negb]. ltb_false.
+    replace (128 :: (s ++ repeat 0 (N.to_nat ml - length s) ++ be_enc 4 (len s)) ++ rest)
+      with ((128 :: s ++ repeat 0 (N.to_nat ml - length s)) ++ be_enc 4 (len s) ++ rest)
+      by (cbn [app]; rewrite <- !app_assoc; reflexivity).
+    rewrite from_app_exact by (rewrite len_cons, len_app, LR; lia). cbn [bind].
+    rewrite uint_be by (rewrite pow256_4; lia). cbn [bind]. ltb_false.
+    cbn [app]. rewrite <- !app_assoc. rewrite sub_cons_1 by reflexivity. cbn [bind].
+    do 2 f_equal; lia.
+  - (* BLOB *)
+    assert (LR : len (repeat 0 (N.to_nat ml - length s)) = ml - len s) by (unfold len; rewrite repeat_length; lia).
+    rewrite LR.
+    ltb_false. rewrite at_0. cbn [bind N.eqb Pos.eqb negb]. ltb_false.
+    replace (128 :: (s ++ repeat 0 (N.to_nat ml - length s) ++ be_enc 4 (len s)) ++ rest)
+      with ((128 :: s ++ repeat 0 (N.to_nat ml - length s)) ++ be_enc 4 (len s) ++ rest)
+      by (cbn [app]; rewrite <- !app_assoc; reflexivity).
+    rewrite from_app_exact by (rewrite len_cons, len_app, LR; lia). cbn [bind].
+    rewrite uint_be by (rewrite pow256_4; lia). cbn [bind]. ltb_false.
+    cbn [app]. rewrite <- !app_assoc. rewrite sub_cons_1 by reflexivity. cbn [bind].
+    do 2 f_equal; lia.
+  - (* UUID *)
+    cbn [col_maxlen] in Hc. subst ml.
+    ltb_false. rewrite at_0. cbn [bind N.eqb Pos.eqb negb]. ltb_false.
+    rewrite sub_cons_1 by lia. cbn [bind]. do 2 f_equal; lia.
+  - (* TIMESTAMP *)
+    ltb_false. rewrite at_0. cbn [bind N.eqb Pos.eqb negb]. ltb_false.
+    rewrite sub_cons_1 by (rewrite len_be_enc; reflexivity). cbn [bind].
+    rewrite <- int_key_bytes by apply unix_nano_ok. rewrite xor_first_invol.
+    rewrite be_dec_enc_small by (rewrite pow256_8; apply wrap64_lt).
+    rewrite to_int64_wrap64 by apply unix_nano_ok.
+    rewrite unix_nano_id by (cbn [key_rt_domain] in Hd; unfold int64_ok; lia). reflexivity.
+  - (* FLOAT *)
+    cbn [col_maxlen] in Hc. subst ml.
+    ltb_false. rewrite at_0. cbn [bind N.eqb Pos.eqb negb]. ltb_false.
+    rewrite sub_cons_1 by (rewrite len_be_enc; reflexivity). cbn [bind].
+    rewrite float_demangle_be8 by (apply float_key_bits_lt; assumption).
+    rewrite be_dec_enc_small by (rewrite pow256_8; apply float_key_bits_lt; assumption). reflexivity.
+Qed.
+
+(* ------------------------------------------------------------------ *)
+(* decodeValue (EncodeRawValue v) = v                                    *)
+(* values as a row payload holds them (no column-length limit needed for the round trip) *)
+Definition rowval_ok (ty : sqltype) (v : sqlval) : bool :=
+  match v, ty with
+  | VNull, _ => true
+  | VInt z, TInteger => (- zp63 <=? z)%Z && (z <? zp63)%Z
+  | VBool _, TBoolean => true
+  | VStr s, TVarchar | VBlob s, TBlob => len s <? p32
+  | VUuid u, TUuid => len u =? 16
+  | VTs _, TTimestamp => true
+  | VFloat b, TFloat => b <? p64
+  | _, _ => false
+  end.
+(* DecodeNullableValue cannot tell an empty VARCHAR/BLOB from NULL *)
+Definition nullable_rt_domain (nullable : bool) (v : sqlval) : bool :=
+  match v with
+  | VStr s | VBlob s => negb nullable || negb (len s =? 0)
+  | _ => true
+  end.
+
+Lemma time_roundtrip ns : micro_precise (VTs ns) = true ->
+  time_from_int64 (to_int64 (wrap64 (time_to_int64 ns))) = ns.
+Proof.
+  cbn [micro_precise]. intros H.
+  apply andb_prop in H as [H H3]. apply andb_prop in H as [H1 H2].
+  assert (Hm : (ns mod 1000 = 0)%Z) by lia.
+  assert (Hr : (- zp63 * 1000 <= ns < zp63 * 1000)%Z) by lia. clear H1 H2 H3.
+  set (q := (ns / 1000)%Z).
+  assert (Hq : ns = (q * 1000)%Z) by (unfold q; lia).
+  assert (Iq : int64_ok q) by (unfold int64_ok; lia).
+  assert (T : time_to_int64 ns = q).
+  { unfold time_to_int64.
+    replace ((ns / 1000000000) * 1000000 + (ns mod 1000000000) / 1000)%Z with q by (unfold q; lia).
+    apply to_int64_wrap64, Iq. }
+  rewrite T, to_int64_wrap64 by exact Iq.
+  unfold time_from_int64. lia.
+Qed.
+
+Ltac eqb_step :=
+  match goal with |- context [if negb (?a =? ?b) then _ else _] =>
+    destruct (N.eqb_spec a b) as [?|?]; cbn [negb]; [|lia] end.
+
+Theorem val_decode_encode ty ml nullable v enc rest :
+  rowval_ok ty v = true -> micro_precise v = true -> nullable_rt_domain nullable v = true ->
+  enc_val ty ml nullable v = Ok enc ->
+  dec_val ty nullable (enc ++ rest) = Ok (v, len enc).
+Proof.
+  intros Hv Hmic Hn E. unfold dec_val, sq_EncLenLen.
+  destruct v, ty; cbn [rowval_ok] in Hv; try discriminate; cbn [enc_val] in E;
+    try (destruct nullable; [|discriminate]);
+    try (destruct ((0 <? ml) && (ml <? len s)); [discriminate|]);
+    try (rewrite N.mod_small in E by (apply N.ltb_lt; exact Hv));
+    match type of E with Ok ?x = _ => assert (enc = x) by congruence end; subst enc; clear E;
+    rewrite ?len_app, ?len_be_enc; change (N.of_nat 4) with 4; change (N.of_nat 8) with 8;
+    try change (len [if b then 1 else 0]) with 1;
+    try ltb_false;
+    try (rewrite <- app_assoc);
+    (rewrite uint_be by (rewrite pow256_4; try (apply N.ltb_lt; exact Hv); lia)); cbn [bind];
+    try ltb_false.
+  1-7: reflexivity.
+  - (* INTEGER *) apply andb_prop in Hv as [H1 H2].
+    cbn [andb N.eqb Pos.eqb negb].
+    rewrite from_app_exact by (rewrite len_be_enc; reflexivity). cbn [bind].
+    rewrite uint_be by (rewrite pow256_8; apply wrap64_lt). cbn [bind].
+    rewrite to_int64_wrap64 by (unfold int64_ok; lia). reflexivity.
+  - (* BOOLEAN *)
+    cbn [andb N.eqb Pos.eqb negb].
+    replace (be_enc 4 1 ++ [if b then 1 else 0] ++ rest) with (be_enc 4 1 ++ (if b then 1 else 0) :: rest) by reflexivity.
+    destruct b; reflexivity.
+  - (* VARCHAR *)
+    cbn [nullable_rt_domain] in Hn.
+    destruct ((len s =? 0) && nullable) eqn:Z.
+    { apply andb_prop in Z as [Z1 Z2]. rewrite Z1, Z2 in Hn. discriminate. }
+    rewrite sub_ok by (rewrite ?len_app, ?len_be_enc; change (N.of_nat 4) with 4; lia).
+    replace (4 + len s - 4) with (len s) by lia.
+    change 4 with (len (be_enc 4 (len s))) at 1. rewrite drop_app_exact, take_app_exact. reflexivity.
+  - (* BLOB *)
+    cbn [nullable_rt_domain] in Hn.
+    destruct ((len s =? 0) && nullable) eqn:Z.
+    { apply andb_prop in Z as [Z1 Z2]. rewrite Z1, Z2 in Hn. discriminate. }
+    rewrite sub_ok by (rewrite ?len_app, ?len_be_enc; change (N.of_nat 4) with 4; lia).
+    replace (4 + len s - 4) with (len s) by lia.
+    change 4 with (len (be_enc 4 (len s))) at 1. rewrite drop_app_exact, take_app_exact. reflexivity.
+  - (* UUID *) apply N.eqb_eq in Hv.
+    assert (TU : take 16 (u ++ zeros 16) = u) by (rewrite <- Hv; apply take_app_exact).
+    rewrite TU. ltb_false. cbn [andb N.eqb Pos.eqb negb].
+    rewrite sub_ok by (rewrite ?len_app, ?len_be_enc; change (N.of_nat 4) with 4; lia).
+    replace (4 + 16 - 4) with (len u) by lia.
+    change 4 with (len (be_enc 4 16)) at 1. rewrite drop_app_exact, take_app_exact. cbn [bind].
+    do 2 f_equal. lia.
+  - (* TIMESTAMP *)
+    cbn [andb N.eqb Pos.eqb negb].
+    rewrite from_app_exact by (rewrite len_be_enc; reflexivity). cbn [bind].
+    rewrite uint_be by (rewrite pow256_8; apply wrap64_lt). cbn [bind].
+    rewrite time_roundtrip by exact Hmic. reflexivity.
+  - (* FLOAT *) apply N.ltb_lt in Hv.
+    cbn [andb N.eqb Pos.eqb negb].
+    rewrite from_app_exact by (rewrite len_be_enc; reflexivity). cbn [bind].
+    rewrite uint_be by (rewrite pow256_8; exact Hv). cbn [bind]. reflexivity.
+Qed.
+
+(* ------------------------------------------------------------------ *)
+(* the code as it is: where the full statements fail (witnesses evaluated by vm_compute) *)
+Definition key_of (ty : sqltype) (ml : N) (v : sqlval) : bytes :=
+  match enc_key 1024 ty ml v with Ok (k, _) => k | _ => [] end.
+
+(* +0.0 and -0.0 are equal for the SQL comparison but have different keys *)
+Theorem equal_values_equal_keys_refuted : exists a b,
+  val_ok TFloat 8 a = true /\ val_ok TFloat 8 b = true /\ sql_compare a b = Some Eq /\
+  is_ok (enc_key 1024 TFloat 8 a) = true /\ is_ok (enc_key 1024 TFloat 8 b) = true /\
+  key_of TFloat 8 a <> key_of TFloat 8 b.
+Proof.
+  exists (VFloat 0), (VFloat p63). repeat split; try (vm_compute; reflexivity).
+  vm_compute. discriminate.
+Qed.
+
+(* a NaN compares below 1.0 (Float64.Compare answers -1 whenever an operand is NaN) but its key is above *)
+Theorem key_order_refuted_nan : exists a b,
+  val_ok TFloat 8 a = true /\ val_ok TFloat 8 b = true /\
+  is_ok (enc_key 1024 TFloat 8 a) = true /\ is_ok (enc_key 1024 TFloat 8 b) = true /\
+  sql_compare a b = Some Lt /\ bcmp (key_of TFloat 8 a) (key_of TFloat 8 b) = Gt.
+Proof.
+  exists (VFloat 9221120237041090560), (VFloat 4607182418800017408).
+  repeat split; vm_compute; reflexivity.
+Qed.
+
+(* 1600-01-01T00:00:00Z is before 1970-01-01T00:00:00Z but its key is above (UnixNano wraps) *)
+Theorem key_order_refuted_timestamp : exists a b,
+  val_ok TTimestamp 8 a = true /\ val_ok TTimestamp 8 b = true /\
+  micro_precise a = true /\ micro_precise b = true /\
+  is_ok (enc_key 1024 TTimestamp 8 a) = true /\ is_ok (enc_key 1024 TTimestamp 8 b) = true /\
+  sql_compare a b = Some Lt /\ bcmp (key_of TTimestamp 8 a) (key_of TTimestamp 8 b) = Gt.
+Proof.
+  exists (VTs (-11676096000000000000)), (VTs 0).
+  repeat split; vm_compute; reflexivity.
+Qed.
+
+(* ... and it does not decode back to itself *)
+Theorem key_decode_encode_refuted_timestamp : exists v,
+  val_ok TTimestamp 8 v = true /\ micro_precise v = true /\
+  is_ok (enc_key 1024 TTimestamp 8 v) = true /\
+  dec_key TTimestamp 8 (key_of TTimestamp 8 v) = Ok (VTs 6770648073709551616, 9).
+Proof.
+  exists (VTs (-11676096000000000000)). repeat split; vm_compute; reflexivity.
+Qed.
+
+(* EncodeNullableValue / DecodeNullableValue (file sorter): an empty VARCHAR comes back as NULL *)
+Theorem val_decode_encode_refuted_nullable_empty :
+  exists enc, enc_val TVarchar 0 true (VStr []) = Ok enc /\ dec_val TVarchar true enc = Ok (VNull, 4).
+Proof. exists [0; 0; 0; 0]. split; vm_compute; reflexivity. Qed.
+
+(* ------------------------------------------------------------------ *)
+(* the premises of the theorems are satisfiable                          *)
+Example key_order_sat : exists a b ka na kb nb,
+  val_ok TVarchar 3 a = true /\ val_ok TVarchar 3 b = true /\
+  in_order_domain fix_negzero a = true /\ in_order_domain fix_negzero b = true /\
+  enc_key 1024 TVarchar 3 a = Ok (ka, na) /\ enc_key 1024 TVarchar 3 b = Ok (kb, nb) /\
+  sql_compare a b = Some Lt.
+Proof.
+  exists (VStr [97]), (VStr [97; 0]). do 4 eexists. repeat split; vm_compute; reflexivity.
+Qed.
+
+Example key_order_sat_float : exists a b ka na kb nb,
+  val_ok TFloat 8 a = true /\ val_ok TFloat 8 b = true /\
+  in_order_domain fix_negzero a = true /\ in_order_domain fix_negzero b = true /\
+  enc_key 1024 TFloat 8 a = Ok (ka, na) /\ enc_key 1024 TFloat 8 b = Ok (kb, nb) /\
+  sql_compare a b = Some Lt.
+Proof.
+  (* -Inf and the smallest positive subnormal *)
+  exists (VFloat 18442240474082181120), (VFloat 1). do 4 eexists. repeat split; vm_compute; reflexivity.
+Qed.
+
+Example composite_sat : exists cols va vb ka kb,
+  tuple_ok fix_negzero cols va = true /\ tuple_ok fix_negzero cols vb = true /\
+  enc_tuple 1024 cols va = Ok ka /\ enc_tuple 1024 cols vb = Ok kb /\
+  tuple_compare va vb = Some Gt.
+Proof.
+  exists [(TVarchar, 2); (TInteger, 8); (TFloat, 8)],
+         [VStr [97]; VInt 5; VFloat 0], [VStr [97]; VNull; VFloat 4607182418800017408].
+  do 2 eexists. repeat split; vm_compute; reflexivity.
+Qed.
+
+Example key_decode_encode_sat : exists v k n,
+  col_ok 1024 (TTimestamp, 8) = true /\ val_ok TTimestamp 8 v = true /\ key_rt_domain v = true /\
+  enc_key 1024 TTimestamp 8 v = Ok (k, n).
+Proof. exists (VTs (-1000)). do 2 eexists. repeat split; vm_compute; reflexivity. Qed.
+
+Example val_decode_encode_sat : exists v enc,
+  rowval_ok TTimestamp v = true /\ micro_precise v = true /\ nullable_rt_domain false v = true /\
+  enc_val TTimestamp 0 false v = Ok enc.
+Proof. exists (VTs (-11676096000000000000)). eexists. repeat split; vm_compute; reflexivity. Qed.
